@@ -91,8 +91,14 @@ func runChat(r *Run, ackFocus bool) {
 		i := i
 		name := fmt.Sprintf("pc%d", i)
 		b := brigodier.Literal(name).Requires(command.Requires(func(c *command.RequiresContext) bool { return permitted[i] })).
-			Executes(mkHandler(name)).
-			Then(brigodier.Argument("rest", brigodier.StringPhrase).Executes(mkHandler(name)))
+			Executes(mkHandler(name))
+		if i == 2 {
+			// pc2 takes no free-form argument: "pc2" and "pc2 sub" are complete, anything else
+			// is a syntax error the proxy answers itself
+			b = b.Then(brigodier.Literal("sub").Executes(mkHandler(name)))
+		} else {
+			b = b.Then(brigodier.Argument("rest", brigodier.StringPhrase).Executes(mkHandler(name)))
+		}
 		w.p.Command().Register(b)
 	}
 	// event outcomes by command line
@@ -164,6 +170,15 @@ func runChat(r *Run, ackFocus bool) {
 				nroot := []string{"pc0", "pc1", "backendcmd", "pc2"}[r.W.Pick(4)]
 				op.newText = fmt.Sprintf("%s mod%d", nroot, i)
 				op.unsignedRebuild = hasUnsigned
+			}
+			if root == "pc2" {
+				// exact forms once per run (lines are keys), otherwise a malformed tail
+				switch {
+				case outcomes["pc2"] == nil && r.W.Pick(3) == 0:
+					op.text = "pc2"
+				case outcomes["pc2 sub"] == nil && r.W.Pick(2) == 0:
+					op.text = "pc2 sub"
+				}
 			}
 			outcomes[op.text] = op
 		}
@@ -333,10 +348,13 @@ func runChat(r *Run, ackFocus bool) {
 		case "forward", "modify-forward":
 			fates[i] = fate{toBackend: line}
 		default:
-			if proxyKnows(line) {
-				fates[i] = fate{execLine: line}
-			} else {
+			switch {
+			case !proxyKnows(line):
 				fates[i] = fate{toBackend: line}
+			case strings.HasPrefix(line, "pc2") && line != "pc2" && line != "pc2 sub":
+				fates[i] = fate{} // a registered, permitted command with a malformed tail: answered by the proxy (syntax error), not run, not forwarded
+			default:
+				fates[i] = fate{execLine: line}
 			}
 		}
 	}
